@@ -646,6 +646,9 @@ func (vc *VC) strLit(s string) string {
 		if len(s) == 1 {
 			fmt.Fprintf(&b, "(assert (= %s (gs.ofbyte %d)))\n", n, s[0])
 		}
+		if strings.ToLower(s) == s {
+			fmt.Fprintf(&b, "(assert (= (gs.lower %s) %s))\n", n, n)
+		}
 	} else {
 		// long literals: distinct from every other long literal by an id
 		fmt.Fprintf(&b, "(assert (= (gs.litid %s) %d))\n", n, len(vc.strLits))
